@@ -2068,7 +2068,7 @@ def rules_stream(ctx, I, n):
         hctx.add_condition(c)
     for k in range(n):
         kind = rng.choice(["lin", "lin", "lin", "lin-sum", "lin-indef", "split", "split", "parts", "parts", "subst", "subst", "subst-inv",
-                           "exchange"])
+                           "exchange", "expand"])
         lo, hi, c, (qlo, qhi, qc) = gen_bounds(I, rng)
         before = after = None
         rule = None
@@ -2103,6 +2103,12 @@ def rules_stream(ctx, I, n):
                     dg = R.deriv("x", g, hctx)
                     before = E.Integral("x", lo, hi, f.subst("u", g) * dg)
                     rule = R.Substitution("u", g)
+                elif kind == "expand":
+                    facs = ["(x + 1)", "(x - 2)", "(2 * x + a)", "(x ^ 2 + 1)", "(x - a)", "(1 - x)", "(x + b) ^ 2", "(x - 1) ^ 3", "x",
+                            "(a * x + b)", "exp(x)", "(sin(x) + 1)"]
+                    body = P(" * ".join(rng.sample(facs, rng.randint(2, 3))) + rng.choice(["", " / x", " / (a + 1)", " ^ 2"]))
+                    before = E.Integral("x", lo, hi, body) if rng.random() < 0.7 else body
+                    rule = R.ExpandPolynomial()
                 elif kind == "exchange":
                     f = P(rng.choice(["x ^ a", "exp(a * x)", "sin(a * x)", "cos(a * x) * x", "log(x + a)", "1 / (x + a)", "atan(a * x)",
                                       "x ^ 2 * exp(-(a * x))", "sqrt(x + a ^ 2)"]))
@@ -2620,6 +2626,349 @@ def interval_fun_cases(ctx, I, cases, rng):
 
 
 # =====================================================================================================
+# stream: HISTORIES on Calculation objects (going back to an earlier step, re-used substitution variables)
+# =====================================================================================================
+def judge_history_step(ctx, I, judge, calc, i, what, key, conds, ivars, hist=None):
+    """Step i of a live calculation: the value of its result against the calculation's start, with the substitutions
+    recorded by steps 0..i in force (up to an additive constant when antiderivatives are involved)."""
+    E = I.expr
+    substs = {}
+    for st in calc.steps[:i + 1]:
+        substs.update(st.rule.get_substs())
+    try:
+        with quiet():
+            start = I.parser.parse_expr(str(calc.start))
+        verdict, detail = judge.judge(start, calc.steps[i].res, conds, {}, substs, set(), ivars)
+    except Exception as ex:  # noqa
+        verdict, detail = "skip:evaluator-error:" + type(ex).__name__, None
+    ctx.count("history:step:" + verdict.split(":")[0])
+    if verdict == "bad":
+        ctx.violation(key, "%s: step %d (%s) of the calculation starting at %s has the result %s, which no longer has the value of "
+                      "the start: %s" % (what, i, calc.steps[i].rule, calc.start, calc.steps[i].res, detail),
+                      {"kind": "history", "what": what, "key": key, "history": hist})
+    return verdict
+
+
+def history_rule(I, p):
+    R, P = I.rules, I.parser.parse_expr
+    if p[0] == "Substitution":
+        return R.Substitution(p[1], P(p[2]))
+    if p[0] == "IndefiniteIntegralIdentity":
+        return R.IndefiniteIntegralIdentity()
+    if p[0] == "FullSimplify":
+        return R.FullSimplify()
+    return R.ReplaceSubstitution()
+
+
+def run_history(I, start, script):
+    """script: list of ["do", item] | ["back", j, item] (item = ["Substitution", name, g] | [rule name]): perform_rule at the
+    end / on step j (which cuts off the later steps, what the UI does through CalculationStep.perform_rule).  Returns
+    the live Calculation."""
+    script = [(op[0], (lambda it=op[1]: history_rule(I, it))) if op[0] == "do" else
+              (op[0], op[1], (lambda it=op[2]: history_rule(I, it))) for op in script]
+    cs = I.compstate
+    with quiet():
+        file = cs.CompFile("base", "c19_history")
+        calc = file.add_calculation(start)
+        for op in script:
+            rule = op[1]() if op[0] == "do" else op[2]()
+            cur = calc.last_expr if op[0] == "do" else calc.steps[op[1]].res
+            if isinstance(rule, I.rules.Substitution):
+                # re-using a name that still occurs (free, or as the variable of an integral not yet evaluated) is a
+                # mistake of the user, not of the calculator: stop the history here
+                nm = rule.var_name
+                if nm in cur.get_vars() or nm in indef_vars(I.expr, cur):
+                    break
+            if op[0] == "do":
+                calc.perform_rule(rule)
+            else:
+                calc.steps[op[1]].perform_rule(rule)
+    return calc
+
+
+def history_stream(ctx, I, n):
+    """Generated histories:  sum of antiderivatives, each solved by  substitute u -> table -> replace substitution  with
+    the SAME variable name u every time, interleaved with going back to an earlier step and re-doing the rule that was
+    applied there (or `replace substitution`).  Every step of every history is judged against the start."""
+    E, R = I.expr, I.rules
+    P = I.parser.parse_expr
+    rng = ctx.rng("history")
+    judge = StepJudge(I, rng, nsamples=2, budget_s=4.0)
+    outer = [("cos(%s)", "sin"), ("exp(%s)", "exp"), ("sin(%s)", "cos"), ("1 / (%s)", "log"), ("(%s) ^ 2", "pow")]
+    for k in range(n):
+        m = rng.choice([2, 2, 3])
+        gs, parts = [], []
+        while len(gs) < m:
+            g = "%d * x + %d" % (rng.choice([1, 2, 3, 4, 5]), rng.choice([1, 2, 3]))
+            if g.startswith("1 * "):
+                g = g[4:]
+            if g not in gs:
+                gs.append(g)
+        for g in gs:
+            parts.append("(INT x. %s)" % (rng.choice(outer)[0] % g))
+        start = " + ".join(parts)
+        names = ["u"] * m if rng.random() < 0.75 else ["u", "v", "w"][:m]
+        # forward plan: for each summand  substitute, table, replace substitution
+        plan = []
+        for g, nm in zip(gs, names):
+            plan.append(("Substitution", nm, g))
+            if not g.startswith("x"):
+                plan.append(("FullSimplify",))          # moves the factor 1/a out so that the table applies
+            plan.append(("IndefiniteIntegralIdentity",))
+            plan.append(("ReplaceSubstitution",))
+
+        # history: go forward some way, jump back to an earlier step and redo what was done there (or replace substitution)
+        upto = rng.randint(3, len(plan))
+        plan = [list(p) for p in plan]
+        script = [["do", p] for p in plan[:upto]]
+        back_to = rng.randint(0, upto - 2)
+        redo = plan[back_to + 1] if rng.random() < 0.7 else ["ReplaceSubstitution"]
+        script.append(["back", back_to, redo])
+        tail = plan[back_to + 2:back_to + 2 + rng.randint(0, 3)] if redo == plan[back_to + 1] else []
+        script += [["do", p] for p in tail]
+        what = "start %s; forward %s; back to step %d and %s; then %s" % (
+            start, [p[0] + (":" + p[2] if len(p) > 2 else "") for p in plan[:upto]], back_to, redo[0], [p[0] for p in tail])
+        ctx.case(("history", what), nontrivial=True)
+        try:
+            with time_limit(60):
+                calc = run_history(I, start, script)
+                fwd = run_history(I, start, [["do", p] for p in plan[:back_to + 2 + len(tail)]]) if redo == plan[back_to + 1] else None
+        except Timeout:
+            ctx.count("history:timeout")
+            continue
+        except Exception as ex:  # noqa
+            ctx.count("history:raises:" + type(ex).__name__)
+            continue
+        ctx.count("history:generated")
+        # (1) redoing the same rule at an earlier step gives what the forward calculation gives
+        if fwd is not None and len(fwd.steps) == len(calc.steps):
+            for i, (a, b) in enumerate(zip(calc.steps, fwd.steps)):
+                if not same_expr(E, a.res, b.res):
+                    ctx.count("history:differs-from-forward")
+        # (2) every step keeps the value of the start
+        for i in range(len(calc.steps)):
+            v = judge_history_step(ctx, I, judge, calc, i, what, "history:%s|back=%d|%s|step%d" % (start, back_to, redo[0], i), [], {"x"},
+                                   {"start": start, "script": script})
+            if v == "bad":
+                break
+    ctx.sample({"history": what} if n else {})
+
+
+def example_histories(ctx, I, files, deadline=None, per_calc=2):
+    """Histories from the recorded calculations: with all recorded steps in place, go back to step j and re-apply the
+    recorded rule of step j+1 through CalculationStep.perform_rule; the result must be what the forward replay gives
+    (same expression, else same value)."""
+    E, cs = I.expr, I.compstate
+    rng = ctx.rng("example-histories")
+    judge = StepJudge(I, rng, nsamples=2, budget_s=4.0)
+    for name, content in files:
+        if deadline is not None and time.time() > deadline:
+            ctx.count("example-histories:file-not-reached")
+            continue
+        book = find_book(ctx.repo, name)
+        try:
+            with quiet():
+                file = cs.CompFile(book, name)
+                for item in content:
+                    file.add_item(cs.parse_item(file, copy.deepcopy(item)))
+        except Exception:  # noqa
+            continue
+        for idx, item in enumerate(file.content):
+            for label, calc, is_eq in walk_calcs(I, item, "%s#%d" % (name, idx)):
+                nst = len(calc.steps)
+                if nst < 2:
+                    continue
+                recorded = [st.res for st in calc.steps]
+                exports = [copy.deepcopy(st.rule.export()) for st in calc.steps]
+                has_substs = any(st.rule.get_substs() for st in calc.steps)
+                for trial in range(per_calc + (1 if has_substs else 0)):
+                    j = rng.randint(0, nst - 2)
+                    # extra probe for calculations with substitutions: go back and apply `replace substitution`, which
+                    # reads the table of substitutions in force
+                    probe = has_substs and trial == per_calc
+                    if probe:
+                        exports_j1 = {"name": "ReplaceSubstitution", "str": "replace substitution"}
+                    else:
+                        exports_j1 = exports[j + 1]
+                    key = "%s/back-to-step%d%s" % (label, j, "/replace-substitution" if probe else "")
+                    ctx.case(("example-history", key), nontrivial=True)
+                    # forward reference: rule j+1 in the context of steps 0..j (what Calculation.perform_rule builds)
+                    saved = list(calc.steps)
+                    try:
+                        with quiet():
+                            with time_limit(60):
+                                hctx = I.context.Context(calc.ctx)
+                                for st in saved[:j + 1]:
+                                    hctx.extend_substs(st.rule.get_substs())
+                                ref = mk_rule(I, copy.deepcopy(exports_j1)).eval(I.parser.parse_expr(str(recorded[j])), hctx)
+                                # the history: all recorded steps present, go back to step j
+                                calc.steps[j].perform_rule(mk_rule(I, copy.deepcopy(exports_j1)))
+                                got = calc.steps[j + 1].res
+                    except Timeout:
+                        ctx.count("example-histories:timeout")
+                        continue
+                    except Exception as ex:  # noqa
+                        ctx.count("example-histories:raises")
+                        continue
+                    finally:
+                        calc.steps = saved
+                    if same_expr(E, ref, got):
+                        ctx.count("example-histories:same-as-forward")
+                        continue
+                    ctx.count("example-histories:differs-from-forward")
+                    substs = {}
+                    for st in saved[:j + 2]:
+                        substs.update(st.rule.get_substs())
+                    try:
+                        verdict, detail = judge.judge(ref, got, list(calc.ctx.get_conds().data), defs_of(I, calc.ctx), substs, set(), set())
+                    except Exception:  # noqa
+                        verdict, detail = "skip", None
+                    if verdict == "bad":
+                        ctx.violation("example-history:" + key, "going back to step %d of %s and re-applying the recorded rule %s gives %s, the "
+                                      "forward calculation gives %s: %s" % (j, label, exports_j1.get("name"), got, ref, detail),
+                                      {"kind": "example-history", "file": name, "key": key})
+
+
+# =====================================================================================================
+# stream: Equation / SubstitutionInverse / IntegrateByEquation against equationM / substInvM / getCoeff, ibeM
+# =====================================================================================================
+def spy_normalize(I):
+    """Context manager recording the (argument, result) pairs of rules.normalize."""
+    @contextlib.contextmanager
+    def cm():
+        R = I.rules
+        rec = []
+        orig = R.normalize
+
+        def spy(e_, conds_=None):
+            r_ = orig(e_, conds_)
+            rec.append((e_, r_))
+            return r_
+        R.normalize = spy
+        try:
+            yield rec
+        finally:
+            R.normalize = orig
+    return cm()
+
+
+def rule_models2_stream(ctx, I, n):
+    E, R = I.expr, I.rules
+    P = I.parser.parse_expr
+    rng = ctx.rng("rule-models2")
+    judge = StepJudge(I, rng, nsamples=2, budget_s=4.0)
+    with quiet():
+        conds = [P("a > 0"), P("b > 0")]
+    hctx = I.context.Context()
+    for c in conds:
+        hctx.add_condition(c)
+    norm = norm_pieces(I, conds)
+    pairs = [("x + x", "2 * x"), ("sin(x) ^ 2 + cos(x) ^ 2", "1"), ("(x + 1) ^ 2", "x ^ 2 + 2 * x + 1"), ("x * x", "x ^ 2"),
+             ("a * x + b * x", "(a + b) * x"), ("exp(x) * exp(a)", "exp(x + a)"), ("1 / x + 1", "(x + 1) / x"), ("x - x", "0"),
+             ("2 * (x + a)", "2 * x + 2 * a"), ("x ^ 2 - 1", "(x - 1) * (x + 1)"), ("x + x", "3 * x"), ("x * x", "x ^ 3")]
+    frames = ["OLD", "sin(OLD) + OLD", "INT x:[1,2]. OLD * exp(x)", "(INT x:[1,2]. cos(OLD)) + OLD", "a * OLD / (1 + OLD ^ 2)",
+              "INT x:[OLD,3]. x", "[OLD * x]_x=1,2", "1 + x", "log(2 + (OLD) ^ 2) - (OLD)", "INT x:[1,2]. INT y:[0,x]. y * (OLD)"]
+    jobs = []
+    for k in range(n):
+        kind = rng.choice(["equation", "equation", "substinv", "ibe"])
+        try:
+            with quiet():
+                if kind == "equation":
+                    old_s, new_s = rng.choice(pairs)
+                    e = P(rng.choice(frames).replace("OLD", "(" + old_s + ")"))
+                    old, new = P(old_s), P(new_s)
+                    rule = R.Equation(old, new)
+                    st, real = apply_rule(I, rule, P(str(e)), hctx)
+                    ctx.count("rule-models2:equation:" + ("applied" if st == "ok" else st.split(":")[0]))
+                    if st not in ("ok", "rejected"):
+                        continue
+                    so, sn, se = to_sexp(E, old), to_sexp(E, new), to_sexp(E, P(str(e)))
+                    if so is None or sn is None or se is None:
+                        continue
+                    found = len(P(str(e)).find_subexpr(old)) > 0
+                    accepted = (st == "ok")
+                    jobs.append(("equation", "rewrite %s to %s in %s" % (old, new, e), real, sexp.dumps(["equation", so, sn, accepted or not found, se]), e))
+                    if accepted:
+                        # the acceptance test stands for  old = new (under the conditions): judge it
+                        try:
+                            verdict, detail = judge.judge(old, new, conds, {}, {}, set(), set())
+                        except Exception:  # noqa
+                            verdict, detail = "skip", None
+                        ctx.count("rule-models2:equation:accept-" + verdict.split(":")[0])
+                        if verdict == "bad":
+                            ctx.violation("equation-accept:%s:%s" % (old, new), "Equation accepted rewriting %s to %s, which have different values: %s" % (
+                                old, new, detail), {"kind": "rule", "rule": "equation", "before": str(e), "params": rule.export()})
+                elif kind == "substinv":
+                    lo, hi, c, _q = gen_bounds(I, rng)
+                    h = P(rng.choice(["2 * u", "u ^ 2", "sin(u)", "exp(u)", "u + 1", "tan(u)", "1 / u", "3 * u - 1", "u / 2", "sqrt(u)"]))
+                    body = gen_integrand(I, rng, rng.choice([0, 1, 1, 2]))
+                    before = E.Integral("x", lo, hi, body)
+                    rule = R.SubstitutionInverse("u", h)
+                    st, real = apply_rule(I, rule, P(str(before)), hctx)
+                    ctx.count("rule-models2:substinv:" + ("applied" if st == "ok" else st.split(":")[0]))
+                    if st != "ok":
+                        continue
+                    swap = real.ty == E.OP and len(real.args) == 1
+                    it = real.args[0] if swap else real
+                    if it.ty != E.INTEGRAL:
+                        continue
+                    lo2, hi2 = (it.upper, it.lower) if swap else (it.lower, it.upper)
+                    sx = [to_sexp(E, t) for t in (h, lo2, hi2, P(str(before)))]
+                    if any(t is None for t in sx):
+                        continue
+                    jobs.append(("substinv", "x = %s on %s" % (h, before), real, sexp.dumps(["substinv", "u", sx[0], sx[1], sx[2], swap, sx[3]]), before))
+                    # hypotheses lo_eq / hi_eq of SubstInvOK: the computed bounds are mapped to the old ones
+                    for newb, oldb, nm in ((lo2, lo, "lower"), (hi2, hi, "upper")):
+                        try:
+                            verdict, detail = judge.judge(h.subst("u", newb), oldb, conds, {}, {}, set(), set())
+                        except Exception:  # noqa
+                            verdict, detail = "skip", None
+                        ctx.count("rule-models2:substinv:bound-" + verdict.split(":")[0])
+                        if verdict == "bad":
+                            ctx.violation("substinv-bounds:%s:%s" % (before, h), "SubstitutionInverse(u, %s) on %s computed the %s bound %s, which h does not map "
+                                          "to %s: %s" % (h, before, nm, newb, oldb, detail),
+                                          {"kind": "rule", "rule": "subst-inv", "before": str(before), "params": rule.export()})
+                else:
+                    L = P(rng.choice(["INT x:[0,1]. exp(x) * sin(x)", "INT x:[0,pi]. exp(-x) * cos(x)", "INT x:[1,2]. sin(log(x))",
+                                      "INT x:[0,1]. exp(a * x) * cos(b * x)"]))
+                    c1 = rng.choice(["exp(1) * sin(1)", "2", "a + 1", "-(exp(1) * cos(1)) + 1", "pi / 2"])
+                    form = rng.choice(["%s - L", "%s - 2 * L", "%s + L / 2", "-(3 * L) + %s", "%s - a * L", "(%s - L) / 2", "%s + 1/3 * L - L"])
+                    e = P((form % c1).replace("L", "(" + str(L) + ")"))
+                    rule = R.IntegrateByEquation(L)
+                    with spy_normalize(I) as rec:
+                        st, real = apply_rule(I, rule, P(str(e)), hctx)
+                    ctx.count("rule-models2:ibe:" + ("applied" if st == "ok" else st.split(":")[0]))
+                    if st != "ok" or len(rec) < 3:
+                        continue
+                    ne, Ln, cn = rec[0][1], rec[1][1], rec[2][1]
+                    sx = [to_sexp(E, t) for t in (Ln, ne, cn)]
+                    if any(t is None for t in sx):
+                        continue
+                    jobs.append(("getcoeff", "coefficient of %s in %s" % (Ln, ne), cn, sexp.dumps(["getcoeff", sx[0], sx[1]]), e))
+                    jobs.append(("ibe", "solve %s = %s" % (L, e), real, sexp.dumps(["ibe", sx[0], sx[1], sx[2]]), e))
+        except Timeout:
+            raise
+        except Exception as ex:  # noqa
+            ctx.count("rule-models2:%s:setup-%s" % (kind, type(ex).__name__))
+            continue
+    out = ctx.lean_driver(EXE, [j[3] for j in jobs]) if jobs else []
+    if out is None:
+        ctx.broken("correspondence:c19:driver", "model driver unavailable")
+        return
+    for (kind, what, real, line, before), ans in zip(jobs, out):
+        ctx.case(("rule-model2", kind, what), nontrivial=True)
+        if kind == "equation":
+            if real is None or ans == "raises":
+                if (real is None) != (ans == "raises"):
+                    ctx.count("rule-models2:equation:raise-mismatch")
+                else:
+                    ctx.count("rule-models2:equation:both-decline")
+                continue
+            ans = sexp.dumps(sexp.loads(ans)[1])
+        model_vs_impl(ctx, I, "rule-models2:" + kind, what, real, ans, judge, conds, norm)
+
+
+# =====================================================================================================
 # stream: bounds of expressions under interval conditions (Conditions.get_bounds_for_expr)
 # =====================================================================================================
 def gen_bounded_expr(E, rng, depth):
@@ -2882,9 +3231,9 @@ def run(ctx):
         "magnitude); thorough: all files; quick: the file group `seed mod 4` (a quarter of the steps) within a time cap -- see "
         "example_steps.coverage for what this run reached. distinct = by canonical input string.")
     use_module_findings(ctx)
-    proofs_ok = ctx.lean_props(["Holpy.C19.Props", "Holpy.C19.Props2"], exes=[EXE])
+    proofs_ok = ctx.lean_props(["Holpy.C19.Props", "Holpy.C19.Props2", "Holpy.C19.Props3"], exes=[EXE])
     if ctx.tier == "thorough" and proofs_ok:
-        ctx.lean_check_modules(["Holpy.C19.Props", "Holpy.C19.Props2"])
+        ctx.lean_check_modules(["Holpy.C19.Props", "Holpy.C19.Props2", "Holpy.C19.Props3"])
     ctx.coverage["trusted_base"] += [
         "Mathlib v4.33 analysis modules imported by the proof files (SpecialFunctions.*Deriv, Pow.Deriv, Sqrt, IntervalIntegral)",
         "correspondence harness harness/props/c19.py: generators, s-expression writer, replacement of rules.normalize by the identity "
@@ -2919,9 +3268,12 @@ def run(ctx):
     ctx.log("normalize stream done")
     linearity_stream(ctx, I, ctx.scale(300, 4000))
     rule_models_stream(ctx, I, ctx.scale(60, 900))
+    rule_models2_stream(ctx, I, ctx.scale(60, 900))
     ftc_table_check(ctx, I)
     interval_fun_stream(ctx, I, ctx.scale(1500, 30000))
     rules_stream(ctx, I, ctx.scale(80, 900))
+    history_stream(ctx, I, ctx.scale(30, 400))
+    ctx.log("generated histories done")
     ctx.log("generated rule applications done")
     files = typed_example_files(ctx.repo)
     if os.environ.get("C19_REGEN_REPLAYABLE"):
@@ -2941,6 +3293,7 @@ def run(ctx):
     else:
         order = [f for grp in groups for f in grp]
         nsel = sum(nsteps_of(c) for _, c in order)
+    example_histories(ctx, I, order, deadline=time.time() + ctx.scale(15, 120), per_calc=ctx.scale(1, 3))
     stats = replay_examples(ctx, I, order, deadline=time.time() + ctx.scale(95, 900))
     stats.pop("_slow", None)
     ntotal = sum(nsteps_of(c) for _, c in files)
@@ -2962,6 +3315,8 @@ def mk_rule(I, params):
         return R.Linearity()
     if n == "DerivIntExchange":
         return R.DerivIntExchange()
+    if n == "ExpandPolynomial":
+        return R.ExpandPolynomial()
     if n == "SplitRegion":
         return R.SplitRegion(P(params["c"]))
     if n == "IntegrationByParts":
@@ -3001,6 +3356,16 @@ def replay_one(ctx, I, rp):
             before = P(rp["before"])
             rule = mk_rule(I, dict(rp["params"]))
         rule_case(ctx, I, rp["rule"], before, rule, rng)
+    elif k == "history":
+        h = rp["history"]
+        calc = run_history(I, h["start"], h["script"])
+        judge = StepJudge(I, rng, nsamples=2, budget_s=10.0)
+        for i in range(len(calc.steps)):
+            if judge_history_step(ctx, I, judge, calc, i, rp.get("what", ""), rp["key"], [], {"x"}, h) == "bad":
+                break
+    elif k == "example-history":
+        files = [f for f in typed_example_files(ctx.repo) if f[0] == rp["file"]]
+        example_histories(ctx, I, files, per_calc=8)
     elif k == "no-crash":
         # a rule may decline (AssertionError) or succeed, but must not die of a TypeError/AttributeError/...
         with quiet():
@@ -3051,19 +3416,33 @@ MANIFEST = {
             "code checks none of these); parts_value (partsM = IntegrationByParts.eval after its acceptance test, which is replaced by "
             "the fact it stands for, body = u * deriv v; u, v differentiable, derivatives integrable); ftc_value ([F]_a^b = INT_a^b f "
             "when deriv F = f, the shape DefiniteIntegralIdentity produces from its table; the harness checks deriv F = f for every "
-            "indefinite-integral identity of the base book and every one it sees used); interval_encloses_add/neg/sub/mul/inverse/div/"
+            "indefinite-integral identity of the base book and every one it sees used); substitution_inverse_value (substInvM = "
+            "SubstitutionInverse.eval with the rule's computed bounds as oracle arguments; SubstInvOK: u fresh, h differentiable with "
+            "continuous derivative, integrand continuous on the image, h maps the new bounds to the old ones - the harness checks the "
+            "last numerically on every generated application); integrate_by_equation_value (ibeM = IntegrateByEquation.eval before its "
+            "last normalize, given that the current expression has the value of L and the coefficient is not 1; the code does not test "
+            "that: a numeric coefficient 1 makes its normalize raise ZeroDivisionError, a symbolic one is silently assumed != 1); "
+            "equation_value_partial (equationM = Equation.eval: the first occurrence of old in find_subexpr order is replaced; value "
+            "preserved when both sides have equal value in every environment; PARTIAL: the acceptance test - normal-form equality - is "
+            "an oracle flag, and equality only under the conditions / inside the range of an enclosing integral is not covered); "
+            "interval_encloses_add/neg/sub/mul/inverse/div/"
             "pow/sqrt/exp/log, interval_contained_in_sound, interval_intersection_mem (Interval arithmetic with open/closed flags and "
             "infinite endpoints; contained_in on exact endpoints); expr_parse_print_partial (token-level round trip of the printer's "
             "bracket rules through a model of the Lark grammar; lexing of the printed string is checked per case at run time, not "
             "proved). Structural differences between model and code are re-judged on normal forms and values before anything is "
             "reported. NOT PROVED (numerical oracle only; mpmath at two precisions, >= 3 admissible parameter points per step: "
             "interior, near the stated bounds, larger magnitude): normalize/Simplify/FullSimplify, Substitution's second branch "
-            "(solving g = u) and its computation of bounds by limits, SubstitutionInverse, identities, Equation, limits, series, "
-            "ElimInfInterval, definitions, equation rules, DerivIntExchange, the Leibniz integral case of deriv, get_bounds_for_expr, "
+            "(solving g = u) and its computation of bounds by limits, SubstitutionInverse's bound computation, ApplyIdentity, the "
+            "acceptance tests of Equation, ExpandPolynomial (to_poly arithmetic), limits, series, ElimInfInterval, LimitEquation, "
+            "definitions, the other equation rules, DerivIntExchange, the Leibniz integral case of deriv, get_bounds_for_expr, "
             "Interval.sin/cos/from_condition and powers with an interval or non-natural exponent. Recorded steps of integral/examples: "
             "thorough re-runs all loadable recorded steps (time cap 15 min), quick one quarter of the files per run (group seed mod 4, "
             "95 s cap; seeds 0-3 together cover every file); about 15% of the steps cannot be evaluated reliably and are counted as "
-            "skipped. A recorded step whose rule starts raising (corpus/c19_replayable.json) is reported.",
+            "skipped. A recorded step whose rule starts raising (corpus/c19_replayable.json) is reported. HISTORIES: generated "
+            "calculations on live compstate.Calculation objects (substitute / table / replace substitution with re-used variable "
+            "names, going back to an earlier step through CalculationStep.perform_rule and re-doing a rule there) have every step "
+            "judged against the start with the substitutions in force, and every recorded calculation is re-done from a random "
+            "earlier step and compared with the forward replay.",
     "note": "Trusted: Lean kernel + propext/Classical.choice/Quot.sound, Mathlib analysis library, the harness generators and the numerical "
             "oracle (mpmath quadrature/differentiation/limits), Lark. The theorems about substM take normalize's output as given "
             "(value hypothesis qval) - normalize itself is judged only numerically; SubstOK/PartsOK/FtcOK/LinOK spell out the analytic "
@@ -3098,6 +3477,9 @@ FINDINGS = [
     {"status": "fixed", "key": "crash:norm.minus_normal_definite_integral", "commit": "b74ba79",
      "what": "norm.minus_normal_definite_integral called to_poly without conds: Equation raised TypeError instead of declining "
              "(e.g. rewriting (INT x:[0,1]. x^2) - (INT y:[0,1]. y) to INT x:[0,1]. (x - 1) * x)"},
+    {"status": "fixed", "key": "history:replace-substitution-under-open-integral", "commit": "fixes/C19-12.patch",
+     "what": "ReplaceSubstitution rewrote the bound variable of an integral still to be evaluated: (x + 3) ^ 3 / 3 + (INT u. 1/2 * u ^ 2) "
+             "became ... + (INT u. 1/2 * (2 * x + 1) ^ 2) (value changed)"},
     {"status": "known", "key": "normalize-idempotent:second-pass-changes-form-only",
      "what": "normalize is not idempotent: a second pass reorders factors, distributes a rational coefficient or simplifies constants "
              "further (e.g. (x - y) / 5 -> 1/5 * (x - y) -> 1/5 * x - 1/5 * y); the value is unchanged (checked on every instance)"},
